@@ -56,4 +56,8 @@ pub(crate) trait ArenaAllocator {
 
     /// No more allocation, reclaim memory if possible.
     fn finish(&mut self);
+
+    /// Forget the memory of this allocator without releasing it.
+    #[cfg(starlark_verif)]
+    fn verif_leak(&mut self);
 }
